@@ -1,7 +1,8 @@
 # C12 - definition, references, highlight and hover agree with each other (DESIGN 5, binder family).
 # Per cursor the four features are queried; the spec column of the driver is the feature's own answer when the C12
 # relation (Spec/LuaScope.v, Section Consistency) holds of the model's answers at that cursor, else INCONSISTENT:<which>.
-import c05
+import binascii, re
+import c05, vlib
 from vlib import Leg
 
 
@@ -26,15 +27,545 @@ def gen_consist_wide(rng, tier):
         ws = c05.pick_wide_workspace(rng)
         steps = c05.cursor_steps(["define", "refs", "highlight", "hover"], ws, rng)
         out.append(c05.make_case([(fn, text) for fn, text, _ in ws], steps))
+    for ws in c05.chain_workspaces(rng, tier, 6):        # call-chain statements with callbacks (seeded C05-5)
+        steps = c05.cursor_steps(["define", "refs", "highlight", "hover"], ws, rng, both_ends=False)
+        out.append(c05.make_case([(fn, text) for fn, text, _ in ws], steps))
     return out
+
+
+# ----------------------------------------------------------------------------- relation-only leg on MEMBER names
+# Field / method names are outside the modelled fragment ("field names are not queried": no reference binder for them),
+# but C12 is a relation between the server's OWN four answers and needs no oracle: for a cursor p on a member name
+#   (1) every r in references(p) resolves, via definition, to the same location set as p      [refs-resolve-elsewhere]
+#   (2) p's own range is among references(d) for every d in definition(p)                      [not-in-refs-of-own-definition]
+#   (3) highlight(p) = the ranges of references(p) that lie in p's file                        [highlight-differs-from-refs-in-file]
+#   (4) hover(p) names the identifier under the cursor and says `local` exactly when definition(p) is a local
+#       declaration (decided on the text: the generator writes one statement per line)        [hover-names-other / local-flag-...]
+# are evaluated here, in Python, on the answers of the real server ALONE (two rounds: the cursors, then definition /
+# references at every location the first round returned).  Row per (cursor, feature): implementation = model = the
+# server's answer (no model demand), spec = the answer when the clauses that concern the feature hold, else
+# `<op>=INCONSISTENT:<clauses>`; classes = the MEMBER_CLASSES predicates true of the cursor (exact predicates over the
+# case text; the OCaml driver belongs to the model side of the family, so they live here).  An unlisted deviation is a
+# VIOLATION like in every other leg.
+MEMBER_LEG = "c12.members"
+TABLES = ["T", "Cfg", "Cls", "Mod"]
+MEMS = ["k", "n", "size", "level", "name"]
+METHS = ["m", "get", "init", "step"]
+MEMBER_RE = re.compile(r"(?<=[.:])[A-Za-z_][A-Za-z0-9_]*")
+KEY_RE = re.compile(r"[{,]\s*([A-Za-z_][A-Za-z0-9_]*)\s*=(?!=)")
+SELF_RE = re.compile(r"\bself\b")
+
+
+def member_cursors(text):
+    """[(line, start, end, kind)] kind in member | key | self"""
+    out = []
+    for li, ln in enumerate(text.split("\n")):
+        code = ln.split("--")[0]
+        for m in MEMBER_RE.finditer(code):
+            if m.start() >= 2 and code[m.start() - 2:m.start()] == "..":
+                continue
+            out.append((li, m.start(), m.end(), "member"))
+        for m in KEY_RE.finditer(code):
+            out.append((li, m.start(1), m.end(1), "key"))
+        for m in SELF_RE.finditer(code):
+            out.append((li, m.start(), m.end(), "self"))
+    return sorted(set(out))
+
+
+def gen_member_workspace(rng):
+    """2-3 files, one statement per line.  Global tables, each defined at top level in exactly ONE file (constructor with
+    keys or empty), members assigned / read / called in every file, colon methods using `self.k`, writes from files
+    that do not define the table, a write textually above the table's definition (inside a function), members of a
+    local table, `_G.T.k`, nested member chains and string-key access"""
+    nfiles = rng.choice([2, 2, 3])
+    names = ["a.lua", "b.lua", "sub/c.lua"][:nfiles]
+    tabs = rng.sample(TABLES, rng.choice([1, 2, 2, 3]))
+    owner = {t: rng.randrange(nfiles) for t in tabs}
+    mems = {t: rng.sample(MEMS, rng.choice([1, 2, 3])) for t in tabs}
+    meths = {t: rng.sample(METHS, rng.choice([0, 1, 2])) for t in tabs}
+    u = lambda: rng.choice(c05.UNDEF)
+    val = lambda: rng.choice(["1", "2", "'s'", "true", "{}", "nil"])
+    files = []
+    for fi in range(nfiles):
+        head, body = [], []
+        for t in tabs:
+            ms = mems[t]
+            if owner[t] == fi:
+                k = rng.random()
+                if k < 0.4:
+                    head.append("%s = {}" % t)
+                elif k < 0.8:
+                    head.append("%s = { %s }" % (t, ", ".join("%s = %s" % (m, val()) for m in ms[:rng.choice([1, 2])])))
+                else:
+                    # the write sits above the definition, inside a function
+                    head.append("local function setup%d()" % len(head))
+                    head.append("  %s.%s = %s" % (t, rng.choice(ms), val()))
+                    head.append("end")
+                    head.append("%s = {}" % t)
+                for m in ms:
+                    if rng.random() < 0.85:                                                 # else: maybe never assigned
+                        body.append("%s.%s = %s" % (t, m, val()))
+                for f in meths[t]:
+                    colon = rng.random() < 0.6
+                    body.append("function %s%s%s(%s)" % (t, ":" if colon else ".", f, rng.choice(["", "x", "x, y"])))
+                    recv = "self" if colon else t
+                    for _ in range(rng.choice([1, 2, 3])):
+                        m = rng.choice(ms)
+                        body.append("  " + rng.choice(["%s.%s = %s" % (recv, m, val()), "%s(%s.%s)" % (u(), recv, m),
+                                                      "local v = %s.%s" % (recv, m), "%s.%s = %s.%s" % (recv, m, recv, rng.choice(ms))]))
+                    if rng.random() < 0.4:
+                        body.append("  return %s.%s" % (recv, rng.choice(ms)))
+                    body.append("end")
+            # uses (in every file, also the owner's)
+            for _ in range(rng.choice([1, 2, 3, 4])):
+                m = rng.choice(ms)
+                k = rng.random()
+                if k < 0.30:
+                    body.append("%s.%s = %s" % (t, m, val()))                               # member WRITE
+                elif k < 0.50:
+                    body.append("%s(%s.%s)" % (u(), t, m))
+                elif k < 0.58:
+                    body.append("local v%d = %s.%s" % (len(body), t, m))
+                elif k < 0.66:
+                    body.append("%s.%s = %s.%s" % (t, m, t, rng.choice(ms)))
+                elif k < 0.72 and meths[t]:
+                    f = rng.choice(meths[t])
+                    body.append(rng.choice(["%s:%s(%s)", "%s.%s(%s)"]) % (t, f, rng.choice(["", "1", "%s.%s" % (t, m)])))
+                elif k < 0.80:
+                    f = rng.choice(METHS)
+                    body.append("function %s:%s()" % (t, f))                                  # a method added from this file
+                    body.append("  self.%s = %s" % (m, val()))
+                    if rng.random() < 0.5:
+                        body.append("  return self.%s" % rng.choice(ms))
+                    body.append("end")
+                elif k < 0.85:
+                    body.append("_G.%s.%s = %s" % (t, m, val()))
+                elif k < 0.90:
+                    body.append('%s(%s["%s"])' % (u(), t, m))
+                elif k < 0.95:
+                    body.append("%s.sub = {}" % t)
+                    body.append("%s.sub.%s = %s" % (t, m, val()))
+                    body.append("%s(%s.sub.%s)" % (u(), t, m))
+                else:
+                    body.append("if %s.%s then %s.%s = %s end" % (t, m, t, m, val()))
+        if rng.random() < 0.5:
+            l = rng.choice(["L", "loc", "t"])
+            m = rng.choice(MEMS)
+            body.append("local %s = {}" % l)
+            body.append("%s.%s = %s" % (l, m, val()))
+            body.append("%s(%s.%s)" % (u(), l, m))
+        if not (head or body):
+            body.append("%s(1)" % u())
+        files.append((names[fi], "\n".join(head + body) + "\n"))
+    return files
+
+
+def gen_members(rng, tier):
+    out = []
+    for _ in range(c05.n_programs(tier, quick=60)):
+        fs = gen_member_workspace(rng)
+        steps = []
+        for fi, (fn, text) in enumerate(fs):
+            for (l, s, e, kind) in member_cursors(text):
+                for col in ((s, e) if rng.random() < 0.25 else (s,)):
+                    steps += ["%s:%d:%d:%d" % (op, fi, l, col) for op in ("define", "refs", "highlight", "hover")]
+        out.append(c05.make_case(fs, steps))
+    return out
+
+
+def parse_locs(ans):
+    """'refs=[a.lua@1:2-1:3,...]' -> [(file, l, c, l2, c2)] ; highlight (no file) -> file None; None if not a list"""
+    body = ans.split("=", 1)[1] if "=" in ans else ""
+    if not (body.startswith("[") and body.endswith("]")):
+        return None
+    out = []
+    for it in body[1:-1].split(","):
+        if not it:
+            continue
+        f, rg = it.rsplit("@", 1) if "@" in it else (None, it)
+        a, b = rg.split("-")
+        out.append((f, int(a.split(":")[0]), int(a.split(":")[1]), int(b.split(":")[0]), int(b.split(":")[1])))
+    return out
+
+
+def member_hover_proj(item):
+    """hover=<hex markdown> -> hover=<L|G>:<last component of the dotted path the label names> | hover=none"""
+    h = item[len("hover="):]
+    if h in ("", "-"):
+        return "hover=none"
+    try:
+        v = binascii.unhexlify(h).decode("utf8", "replace")
+    except Exception:
+        return item
+    lines = v.split("\n")
+    label = lines[1] if len(lines) > 1 and lines[0].startswith("```") else lines[0]
+    loc = label.startswith("local ")
+    rest = label[6:] if loc else label
+    if rest.startswith("function "):
+        rest = rest[9:]
+    m = re.match(r"[A-Za-z_][A-Za-z0-9_]*(?:[.:][A-Za-z_][A-Za-z0-9_]*)*", rest)
+    return "hover=%s:%s" % ("L" if loc else "G", re.split(r"[.:]", m.group(0))[-1] if m else "?")
+
+
+def local_decl_at(files, loc):
+    """is the identifier at loc a local declaration?  (text level: `local x`, `local function x`, `local a, x`, a
+    parameter, a loop variable; the generator of this leg writes one statement per line)"""
+    f, l, c = loc[0], loc[1], loc[2]
+    text = dict(files).get(f)
+    if text is None:
+        return None
+    lines = text.decode("latin1").split("\n")
+    if l >= len(lines):
+        return None
+    before = lines[l][:c]
+    if re.search(r"\bfunction\s+[A-Za-z_][A-Za-z0-9_.]*:$", before):
+        return None              # a colon-method name: the parser puts the synthetic parameter `self` there as well
+    if re.search(r"\blocal\s+(function\s+)?([A-Za-z_][A-Za-z0-9_]*\s*,\s*)*$", before):
+        return True
+    if re.search(r"\bfunction\b[^()]*\(([^()]*,)?\s*$", before) or re.search(r"\bfor\s+([A-Za-z_][A-Za-z0-9_]*\s*,\s*)*$", before):
+        return True
+    return False
+
+
+def ident_span(files, fi, line, col):
+    lines = files[fi][1].decode("latin1").split("\n")
+    if line >= len(lines):
+        return None
+    for m in c05.IDENT_RE.finditer(lines[line]):
+        if m.start() <= col <= m.end():
+            return (m.group(0), line, m.start(), m.end())
+    return None
+
+
+def enclosing_method(lines, l):
+    """(table chain, method, colon?) of the `function X:m(` header the line lies in (one statement per line: the nearest
+    header above that is not closed by an `end` in column 0)"""
+    for k in range(l, -1, -1):
+        if k < l and lines[k].startswith("end"):
+            return None
+        m = re.match(r"function\s+([A-Za-z_][A-Za-z0-9_.]*)([.:])([A-Za-z_][A-Za-z0-9_]*)\s*\(", lines[k])
+        if m:
+            return (m.group(1), m.group(3), m.group(2) == ":")
+    return None
+
+
+def chain_before(lines, l, s):
+    """the member chain a member name at column s hangs on: `T`, `T.sub`; `_G.` stripped, `self` = the method's table"""
+    m = re.search(r"([A-Za-z_][A-Za-z0-9_]*(?:\.[A-Za-z_][A-Za-z0-9_]*)*)[.:]$", lines[l][:s])
+    if not m:
+        return None
+    ch = m.group(1)
+    if ch.startswith("_G."):
+        ch = ch[3:]
+    if ch == "self" or ch.startswith("self."):
+        em = enclosing_method(lines, l)
+        if not em or not em[2]:
+            return None
+        ch = em[0] + ch[4:]
+    return ch
+
+
+def defined_members(files, self_anywhere=True):
+    """{(chain, name)} with a defining occurrence somewhere in the workspace: `chain.name = e` (also through `_G.`, and
+    through `self` - with self_anywhere=False only in a file that assigns the table `X = ...` itself),
+    `function chain.name(` / `chain:name(`, a key of the constructor `chain = { ... }`"""
+    out = set()
+    for _, content in files:
+        lines = content.decode("latin1").split("\n")
+        for l, ln in enumerate(lines):
+            code = ln.split("--")[0]
+            for m in re.finditer(r"(?<=[.])([A-Za-z_][A-Za-z0-9_]*)\s*=(?!=)", code):
+                ch = chain_before(lines, l, m.start(1))
+                if ch and not self_anywhere and re.search(r"\bself(\.[A-Za-z_][A-Za-z0-9_]*)*\.$", code[:m.start(1)]):
+                    root = ch.split(".")[0]
+                    if not any(re.match(r"%s\s*=(?!=)" % re.escape(root), x) for x in lines):
+                        continue
+                if ch:
+                    out.add((ch, m.group(1)))
+            m = re.match(r"\s*function\s+([A-Za-z_][A-Za-z0-9_.]*)[.:]([A-Za-z_][A-Za-z0-9_]*)\s*\(", code)
+            if m:
+                out.add((m.group(1)[3:] if m.group(1).startswith("_G.") else m.group(1), m.group(2)))
+            m = re.match(r"\s*([A-Za-z_][A-Za-z0-9_.]*)\s*=\s*\{(.*)\}\s*$", code)
+            if m:
+                for k in KEY_RE.finditer("{" + m.group(2)):
+                    out.add((m.group(1), k.group(1)))
+    return out
+
+
+def cls_cursor_on_self(files, fi, lines, name, l, s, e):
+    return name == "self"
+
+
+def cls_self_in_redefined_method(files, fi, lines, name, l, s, e):
+    """`self`, or a member reached through `self`, in the body of a `function X:m(` that has an earlier `function X:m(` /
+    `function X.m(` in the same file"""
+    if name != "self" and not re.search(r"\bself(\.[A-Za-z_][A-Za-z0-9_]*)*\.$", lines[l][:s]):
+        return False
+    return in_redefined_method(lines, l)
+
+
+def in_redefined_method(lines, l):
+    em = enclosing_method(lines, l)
+    if not em or not em[2]:
+        return False
+    hdr = re.compile(r"function\s+%s[.:]%s\s*\(" % (re.escape(em[0]), re.escape(em[1])))
+    seen = 0
+    for k in range(0, l + 1):
+        if hdr.match(lines[k]):
+            seen += 1
+    return seen >= 2
+
+
+def cls_member_used_in_redefined_method(files, fi, lines, name, l, s, e):
+    """the cursor's member name is reached through `self.` somewhere in the body of a re-defined colon method: that
+    occurrence belongs to the synthetic local `self`, yet the name-based reference search lists it"""
+    pat = re.compile(r"\bself\.%s\b" % re.escape(name))
+    for _, c in files:
+        ls = c.decode("latin1").split("\n")
+        for k, ln in enumerate(ls):
+            if pat.search(ln) and in_redefined_method(ls, k):
+                return True
+    return False
+
+
+def cls_depth2_member_other_file(files, fi, lines, name, l, s, e):
+    """a member of a member table (`X.sub.name`) unless `X.sub` is assigned in exactly one file and every defining
+    occurrence of `X.sub.name` is in that file"""
+    ch = chain_before(lines, l, s)
+    if ch is None or "." not in ch:
+        return False
+    parent = re.compile(r"^\s*(_G\.)?%s\s*=(?!=)" % re.escape(ch))
+    fdef = re.compile(r"^\s*(_G\.)?%s\.%s\s*=(?!=)" % (re.escape(ch), re.escape(name)))
+    fp, fd = set(), set()
+    for n, c in files:
+        for ln in c.decode("latin1").split("\n"):
+            if parent.match(ln):
+                fp.add(n)
+            if fdef.match(ln):
+                fd.add(n)
+    return not (len(fp) == 1 and fd <= fp)
+
+
+def cls_undefined_member(files, fi, lines, name, l, s, e):
+    if name == "self":
+        return False
+    ch = chain_before(lines, l, s)
+    return ch is not None and (ch, name) not in defined_members(files)
+
+
+def cls_defined_through_self_elsewhere(files, fi, lines, name, l, s, e):
+    """every defining occurrence of the member is a `self.name = e` in a file that does not assign the table itself"""
+    if name == "self":
+        return False
+    ch = chain_before(lines, l, s)
+    return ch is not None and (ch, name) in defined_members(files) and (ch, name) not in defined_members(files, False)
+
+
+def cls_string_key_reference(files, fi, lines, name, l, s, e):
+    pat = re.compile(r"\[\s*([\"'])%s\1\s*\]" % re.escape(name))
+    return any(pat.search(c.decode("latin1")) for _, c in files)
+
+
+# (class, exact predicate over the case text and the cursor, the clauses it explains)
+MEMBER_CLASSES = [
+    ("member_cursor_on_self", cls_cursor_on_self, {"hover-names-other"}),
+    ("member_self_in_redefined_method", cls_self_in_redefined_method, {"refs-resolve-elsewhere", "not-in-refs-of-own-definition"}),
+    ("member_used_in_redefined_method", cls_member_used_in_redefined_method, {"refs-resolve-elsewhere", "not-in-refs-of-own-definition"}),
+    ("member_undefined", cls_undefined_member, {"not-in-refs-of-own-definition", "hover-names-other"}),
+    ("member_defined_through_self_elsewhere", cls_defined_through_self_elsewhere, {"not-in-refs-of-own-definition", "hover-names-other"}),
+    ("member_depth2_other_file", cls_depth2_member_other_file, {"not-in-refs-of-own-definition", "hover-names-other"}),
+    ("member_string_key_reference", cls_string_key_reference, {"refs-resolve-elsewhere"}),
+]
+
+
+def member_classes(files, fi, span, bad):
+    """the classes true of the cursor that explain failing clauses - only when EVERY failing clause is explained"""
+    name, l, s, e = span
+    lines = files[fi][1].decode("latin1").split("\n")
+    true = [(k, ex) for k, pred, ex in MEMBER_CLASSES if pred(files, fi, lines, name, l, s, e)]
+    if not all(any(b in ex for _, ex in true) for b in bad):
+        return []
+    return [k for k, ex in true if ex & set(bad)]
+
+
+class C12Runner(c05.BinderRunner):
+    def __init__(self, pid, tier, seed):
+        super().__init__(pid, tier, seed)
+        # the findings of the relation-only leg are recorded beside their class predicates (MEMBER_FINDINGS below)
+        self.findings = self.findings + [dict(f) for f in MEMBER_FINDINGS if f["id"] not in {g["id"] for g in self.findings}]
+        self.open_classes = {f["class"]: f for f in self.findings if f.get("status") == "open" and f.get("class")}
+
+    def eval_cases(self, leg, cases):
+        if leg.name != MEMBER_LEG:
+            return super().eval_cases(leg, cases)
+        return self.eval_members(leg, cases)
+
+    def srv(self, leg, cases):
+        return vlib.run_worker([self.impl_exe, "srv.script"], cases, leg.per_case_s, leg.jobs)
+
+    def eval_members(self, leg, cases):
+        first = self.srv(leg, cases)
+        parsed = []
+        follow = []
+        for c, ans in zip(cases, first):
+            fs, steps = c05.split_case(c)
+            files = c05.case_files(c)
+            items = ans.split(" | ")
+            if len(items) != len(steps):
+                parsed.append((c, fs, files, steps, None, ans))
+                follow.append(None)
+                continue
+            names = [n for n, _ in files]
+            want = set()
+            for st, it in zip(steps, items):
+                op = st.split(":")[0]
+                if op in ("define", "refs"):
+                    for (f, l, cc, _, _) in (parse_locs(it) or []):
+                        if f in names:
+                            want.add((names.index(f), l, cc))
+            want = sorted(want)
+            parsed.append((c, fs, files, steps, items, want))
+            follow.append(" ".join(fs + ["S:open:%d" % k for k in range(len(fs))] +
+                                   ["S:%s:%d:%d:%d" % (op, f, l, cc) for (f, l, cc) in want for op in ("define", "refs")])
+                          if want else None)
+        second = self.srv(leg, [x for x in follow if x is not None])
+        second = iter(second)
+        rows = []
+        for (c, fs, files, steps, items, want), fo in zip(parsed, follow):
+            opens = ["S:open:%d" % k for k in range(len(fs))]
+            if items is None:
+                rows.append((c, want[:2000], "an-answer-per-step", "-", "-"))      # crash / timeout of the whole process
+                continue
+            names = [n for n, _ in files]
+            tab = {}
+            if fo is not None:
+                a2 = next(second).split(" | ")
+                if len(a2) != 2 * len(want):
+                    rows.append((fo, " | ".join(a2)[:2000], "an-answer-per-step", "-", "-"))
+                    continue
+                for k, (f, l, cc) in enumerate(want):
+                    tab[("define", names[f], l, cc)] = parse_locs(a2[2 * k])
+                    tab[("refs", names[f], l, cc)] = parse_locs(a2[2 * k + 1])
+            by_cursor = {}
+            for st, it in zip(steps, items):
+                a = st.split(":")
+                by_cursor.setdefault((int(a[1]), int(a[2]), int(a[3])), {})[a[0]] = it
+            # a case whose steps all concern ONE cursor (the replayable form of a row, see `one`) reports its last step only
+            single = len(by_cursor) == 1
+            for k, (st, it) in enumerate(zip(steps, items)):
+                if single and k != len(steps) - 1:
+                    continue
+                a = st.split(":")
+                op, fi, l, col = a[0], int(a[1]), int(a[2]), int(a[3])
+                one = " ".join(fs + opens + ["S:%s:%d:%d:%d" % (o, fi, l, col) for o in ("define", "refs", "highlight", "hover")
+                                             if o != op] + ["S:" + st])
+                got = by_cursor[(fi, l, col)]
+                span = ident_span(files, fi, l, col)
+                d = parse_locs(got.get("define", ""))
+                r = parse_locs(got.get("refs", ""))
+                h = parse_locs(got.get("highlight", ""))
+                shown = member_hover_proj(it) if op == "hover" else it
+                bad = []
+                if span is not None and d is not None and r is not None:
+                    me = (names[fi], l, span[2], l, span[3])
+                    if op == "refs":
+                        for x in r:
+                            dx = tab.get(("define", x[0], x[1], x[2]))
+                            if dx is not None and sorted(set(dx)) != sorted(set(d)):
+                                bad.append("refs-resolve-elsewhere")
+                                break
+                        for x in d:
+                            rx = tab.get(("refs", x[0], x[1], x[2]))
+                            if rx is not None and me not in rx:
+                                bad.append("not-in-refs-of-own-definition")
+                                break
+                    elif op == "highlight" and h is not None:
+                        if sorted(x[1:] for x in h) != sorted(x[1:] for x in r if x[0] == names[fi]):
+                            bad.append("highlight-differs-from-refs-in-file")
+                    elif op == "hover" and d:
+                        if shown == "hover=none" or shown.split(":", 1)[1] != span[0]:
+                            bad.append("hover-names-other")
+                        ld = [local_decl_at(files, x) for x in d]
+                        if None not in ld and shown != "hover=none" and (shown.startswith("hover=L:") != any(ld)):
+                            bad.append("local-flag-differs-from-definition")
+                spec = shown if not bad else "%s=INCONSISTENT:%s" % (op, "+".join(bad))
+                cls = member_classes(files, fi, span, bad) if (bad and span is not None) else []
+                rows.append((one, shown, shown, spec if op != "define" else "-", ",".join(cls) or "-"))
+        return rows
+
+
+def witness(files, fi, line, col, op):
+    return c05.make_case(files, ["%s:%d:%d:%d" % (o, fi, line, col) for o in ("define", "refs", "highlight", "hover") if o != op]
+                         + ["%s:%d:%d:%d" % (op, fi, line, col)])
+
+
+_REDEF = [("a.lua", "T = {}\nT.k = 1\nfunction T:m()\n  return self.k\nend\nfunction T:m()\n  return self.k\nend\n")]
+# Findings of the relation-only leg on the UNCHANGED code (recorded here, beside their predicates: known_findings/C12.json
+# belongs to the model side of the family; the lead may move them there verbatim - the Runner merges both lists).
+MEMBER_FINDINGS = [
+    {"id": "C12-member_cursor_on_self", "status": "open", "class": "member_cursor_on_self", "leg": MEMBER_LEG,
+     "case": witness([("a.lua", "T = {}\nT.k = 1\nfunction T:m()\n  return self.k\nend\n")], 0, 3, 9, "hover"),
+     "what": "cursor on `self` inside `function T:m()`: definition / references treat it as the table T (consistently), but "
+             "hover shows `T : table = {...}` - it names T, not the identifier under the cursor (clause 4 of C12; by design of "
+             "the self aliasing)"},
+    {"id": "C12-member_self_in_redefined_method", "status": "open", "class": "member_self_in_redefined_method", "leg": MEMBER_LEG,
+     "case": witness(_REDEF, 0, 6, 9, "refs"),
+     "what": "`self` (and members reached through it) in the body of a colon method that the same file defines a second "
+             "time: self is no longer the table but the synthetic parameter, whose Loc is the METHOD NAME of the header; "
+             "definition(self) = the method name's range, definition at that range = the member `m`, and references of "
+             "`self.k` there list only themselves while definition(self.k) is T.k: p is not among references(definition(p)), "
+             "references resolve elsewhere"},
+    {"id": "C12-member_used_in_redefined_method", "status": "open", "class": "member_used_in_redefined_method", "leg": MEMBER_LEG,
+     "case": witness([("b.lua", "T.k = 2\n"), ("c.lua", "T = {}\nfunction T:m()\nend\nfunction T:m()\n  self.k = 3\nend\n")],
+                     0, 0, 2, "refs"),
+     "what": "seen from outside: a member that the body of a RE-DEFINED colon method reaches through `self.` (there a member "
+             "of the synthetic parameter, see member_self_in_redefined_method) is mixed up with the table's member of "
+             "that name by the name-based search: definition(T.k) in another file answers the `self.k` inside the "
+             "re-defined method, references from there list only themselves: a listed reference resolves elsewhere and p "
+             "is not among references(definition(p))"},
+    {"id": "C12-member_undefined", "status": "open", "class": "member_undefined", "leg": MEMBER_LEG,
+     "case": witness([("a.lua", "T = {}\nuse(T.size)\n")], 0, 1, 6, "refs"),
+     "what": "a member that is never assigned (`T.size` read only): definition falls back to the table T, references list "
+             "the reads of `.size`, hover says `any`: p is not among references(definition(p)), hover does not name it"},
+    {"id": "C12-member_defined_through_self_elsewhere", "status": "open", "class": "member_defined_through_self_elsewhere",
+     "leg": MEMBER_LEG,
+     "case": witness([("a.lua", "T = {}\n"), ("b.lua", "function T:m()\n  self.k = 1\nend\nuse(T.k)\n")], 1, 3, 6, "refs"),
+     "what": "a member whose only assignments are `self.k = e` inside colon methods in a file OTHER than the one that assigns "
+             "the table is not recorded as a member for definition / hover (the same text inside the defining file is): "
+             "definition falls back to the table, references still list the occurrences"},
+    {"id": "C12-member_depth2_other_file", "status": "open", "class": "member_depth2_other_file", "leg": MEMBER_LEG,
+     "case": witness([("a.lua", "Mod = {}\nMod.sub = {}\n"), ("b.lua", "Mod.sub.size = 1\nuse(Mod.sub.size)\n")], 1, 0, 8, "refs"),
+     "what": "a member of a member table (`Mod.sub.size = 1`) first assigned in a file other than the one that first assigns "
+             "`Mod.sub` is not found by definition / hover (falls back to `Mod.sub`), while references list its occurrences "
+             "(compare C19 member_depth2)"},
+    {"id": "C12-member_string_key_reference", "status": "open", "class": "member_string_key_reference", "leg": MEMBER_LEG,
+     "case": witness([("a.lua", "T = {}\nT.level = 2\nuse(T[\"level\"])\n")], 0, 1, 2, "refs"),
+     "what": "references of a member list the string key of `T[\"level\"]` with the range of the whole literal INCLUDING the "
+             "quotes; definition at the start of that range (the quote character) answers nothing, so a listed reference "
+             "does not resolve to the declaration (one column further it does; compare the C04 string-key rename class)"},
+]
 
 
 LEGS = [
     Leg("c12.consist", gen_consist, nontrivial=c05.nontrivial, describe=c05.describe, per_case_s=2.5,
         skip_model=c05.skip_model),
     c05.wide_leg("c12.wide", "c12.consist", gen_consist_wide, per_case_s=2.5),
+    Leg(MEMBER_LEG, gen_members, nontrivial=c05.nontrivial, describe=c05.describe, per_case_s=2.5),
 ]
 
 
+def make_runner(tier, seed):
+    return C12Runner("C12", tier, seed)
+
+
 def main(tier, seed):
-    return c05.run_family("C12", LEGS, tier, seed)
+    return c05.run_family("C12", LEGS, tier, seed, runner_cls=C12Runner, assume_extra=[
+        "leg c12.members: cursors on member / method names, constructor keys and `self` (outside the modelled fragment: no "
+        "reference binder for field names).  RELATION-ONLY: the four clauses of C12 are evaluated in Python on the answers of "
+        "the real server alone (two rounds: the cursors, then definition / references at every location the first round "
+        "returned); implementation column = model column (no model demand), spec column = the answer when the clauses hold.  "
+        "Deviations of the unchanged code fall into the MEMBER_CLASSES predicates of checks/c12.py (exact predicates over "
+        "the case text and the cursor, each bound to the clauses it explains; a class covers a row only when EVERY failing "
+        "clause is explained); their findings (MEMBER_FINDINGS, with witnesses, replayed on every run) are merged with "
+        "known_findings/C12.json.  `local` in clause 4 is decided on the text (one statement per line).  Workspaces: every "
+        "global table is assigned at top level in exactly one file"])
